@@ -371,6 +371,11 @@ def toast_pixel_for_point(depth, lat, lon, coordsys=ToastCoordinateSystem.ASTRON
     # that is closest to the input position.
 
     lons, lats = toast_tile_get_coords(tile)
+
+    # The longitudes of the tile's pixels may be on a different branch than the
+    # query longitude (they can be negative or exceed 2pi), so express them
+    # relative to it before measuring distances and fitting.
+    lons = lon + (lons - lon + np.pi) % TWOPI - np.pi
     dist2 = (lons - lon) ** 2 + (lats - lat) ** 2
     min_y, min_x = np.unravel_index(np.argmin(dist2), (256, 256))
 
